@@ -1354,8 +1354,8 @@ func (L *layouts) streamReader(fn *ssa.Function) *rsum {
 			com := call.Common()
 			cal := com.StaticCallee()
 			switch {
-			case cal != nil && cal.Name() == "next" && cal.Signature.Recv() != nil:
-				n := c.pos(com.Args[1], nil)
+			case isNextLike(call):
+				n := c.pos(com.Args[nextLikeArg(call)], nil)
 				for _, r := range *call.Referrers() {
 					if ex, ok := r.(*ssa.Extract); ok && ex.Index == 0 {
 						regions[ex] = running
@@ -1363,8 +1363,8 @@ func (L *layouts) streamReader(fn *ssa.Function) *rsum {
 					}
 				}
 				running = running.add(n)
-			case cal != nil && cal.Name() == "readBinary" && cal.Signature.Recv() != nil:
-				dst := com.Args[1]
+			case isReadBinaryLike(call):
+				dst := com.Args[readBinaryLikeArg(call)]
 				// length of the destination: dirtmake.Bytes(n, n) / make([]byte, n)
 				ln := &bx{op: "opaque", s: "payload length"}
 				if mk, ok := dst.(*ssa.Call); ok && len(mk.Common().Args) >= 1 {
@@ -1448,4 +1448,46 @@ func (L *layouts) streamReader(fn *ssa.Function) *rsum {
 	}
 	s.finish()
 	return s
+}
+
+// isNextLike: a direct invoke of the buffered reader's Next(n), or a thin
+// repository wrapper around it that passes its own parameter.
+func isNextLike(c *ssa.Call) bool {
+	if isInvokeOf(c, "Next") {
+		return true
+	}
+	cal := c.Common().StaticCallee()
+	if cal == nil || !inRepo(cal) {
+		return false
+	}
+	_, ok := wrapsInvoke(cal, "Next")
+	return ok
+}
+
+func nextLikeArg(c *ssa.Call) int {
+	if isInvokeOf(c, "Next") {
+		return 0
+	}
+	k, _ := wrapsInvoke(c.Common().StaticCallee(), "Next")
+	return k
+}
+
+func isReadBinaryLike(c *ssa.Call) bool {
+	if isInvokeOf(c, "ReadBinary") {
+		return true
+	}
+	cal := c.Common().StaticCallee()
+	if cal == nil || !inRepo(cal) {
+		return false
+	}
+	_, ok := wrapsInvoke(cal, "ReadBinary")
+	return ok
+}
+
+func readBinaryLikeArg(c *ssa.Call) int {
+	if isInvokeOf(c, "ReadBinary") {
+		return 0
+	}
+	k, _ := wrapsInvoke(c.Common().StaticCallee(), "ReadBinary")
+	return k
 }
